@@ -8,17 +8,22 @@ from aiokafka.coordinator.assignors.sticky.sticky_assignor import (StickyAssignm
 from . import assignsim as A
 
 
-def u1_stickiness(src, max_members, ntopics, max_parts, rounds):
+def u1_stickiness(src, max_members, ntopics, max_parts, rounds, vary_order=False):
     parts, subs = A.choose_layout(src, max_members, ntopics, max_parts, allow_no_metadata=False)
     same = src.flag("identical_subscriptions")
     if same:
         first = list(subs.values())[0]
         subs = {m: list(first) for m in subs}
+        if vary_order and len(first) > 1:
+            # "the same topics" does not say "listed in the same order": members may list them differently
+            for m in sorted(subs):
+                if src.flag(f"reversed_topic_list_{m}"):
+                    subs[m].reverse()
     res = A.run_assign("sticky", parts, subs)
     A.check_validity(src, "sticky", parts, subs, res, tag="round 1: ")
     gen = 1
     for r in range(rounds):
-        kind, subs2, gone, new = A.second_round(src, subs, max_new=2, tag=f"r{r}_")
+        kind, subs2, gone, new = A.second_round(src, subs, max_new=2, tag=f"r{r}_", vary_order=vary_order and same)
         res2 = A.run_assign("sticky", parts, subs2, previous={m: res[m] for m in res if m in subs2}, generation=gen)
         src.note({"kind": kind, "partitions": parts, "first": res, "second": res2})
         A.check_validity(src, "sticky", parts, subs2, res2, tag=f"round {r + 2}: ")
@@ -37,12 +42,13 @@ def u1_stickiness(src, max_members, ntopics, max_parts, rounds):
 
 def harnesses(tier):
     q = tier == "quick"
-    confs = [(3, 1, 9, 1), (3, 2, 2, 1)] if q else [(4, 2, 4, 1), (3, 2, 3, 2), (4, 1, 10, 2)]
+    confs = ([(3, 1, 9, 1, False), (3, 2, 2, 1, False), (2, 2, 3, 2, True)] if q else
+             [(4, 2, 4, 1, False), (3, 2, 3, 2, True), (4, 1, 10, 2, False)])
     hs = []
-    for mm, nt, mp, rounds in confs:
+    for mm, nt, mp, rounds, vo in confs:
         hs.append(Harness(
-            name=f"U1_stickiness_{mm}m_{nt}t_{mp}p_{rounds}rounds", fn=u1_stickiness,
-            params={"max_members": mm, "ntopics": nt, "max_parts": mp, "rounds": rounds},
+            name=f"U1_stickiness_{mm}m_{nt}t_{mp}p_{rounds}rounds{'_anyorder' if vo else ''}", fn=u1_stickiness,
+            params={"max_members": mm, "ntopics": nt, "max_parts": mp, "rounds": rounds, "vary_order": vo},
             functions=[StickyPartitionAssignor.assign, StickyAssignmentExecutor._init_current_assignments,
                        StickyAssignmentExecutor.balance, StickyAssignmentExecutor._perform_reassignments,
                        StickyAssignmentExecutor._populate_sorted_partitions, PartitionMovements.move_partition,
